@@ -1,9 +1,9 @@
 package main
 
 import (
+	"go/constant"
 	"encoding/json"
 	"fmt"
-	"go/ast"
 	"go/token"
 	"go/types"
 	"os"
@@ -255,7 +255,16 @@ func runC02(c *Ctx) {
 		fn := c.SSAFunc("cbor", "Value.processMap")
 		ok := false
 		if fn != nil {
-			for _, an := range withAnon(fn) {
+			// functions deferred by processMap: func literals and directly deferred package functions
+			cands := withAnon(fn)
+			for _, in := range fnInstrs(fn) {
+				if d, isD := in.(*ssa.Defer); isD {
+					if h := resolveCallee(d.Common()); h != nil && len(h.Blocks) > 0 && h.Pkg == fn.Pkg {
+						cands = append(cands, h)
+					}
+				}
+			}
+			for _, an := range cands {
 				for _, ci := range allCalls(an) {
 					b, isB := ci.Common().Value.(*ssa.Builtin)
 					if !isB || b.Name() != "recover" {
@@ -277,6 +286,12 @@ func runC02(c *Ctx) {
 									if st, isSt := in.(*ssa.Store); isSt {
 										if fv, isFV := st.Addr.(*ssa.FreeVar); isFV && isErrorType(fv.Type().Underlying().(*types.Pointer).Elem()) {
 											ok = true
+										}
+										// deferred helper: the error result is reached through a *error parameter
+										if pa, isP := st.Addr.(*ssa.Parameter); isP {
+											if pt, isPt := pa.Type().Underlying().(*types.Pointer); isPt && isErrorType(pt.Elem()) {
+												ok = true
+											}
 										}
 									}
 								}
@@ -539,38 +554,79 @@ func (c *Ctx) assertGuardedBySwitch(ta *ssa.TypeAssert) bool {
 	return false
 }
 
-func (c *Ctx) checkDecOptions() {
-	p := c.Pkg("cbor")
-	n := 0
-	for _, f := range p.Syntax {
-		ast.Inspect(f, func(node ast.Node) bool {
-			cl, ok := node.(*ast.CompositeLit)
+// structFieldInts: the integer constants stored into the fields of a struct value that is built by a composite
+// literal, either in place or in a same-package constructor helper whose parameters receive constants at the call.
+func structFieldInts(v ssa.Value, args []ssa.Value, depth int, out map[string]int64) bool {
+	if depth > 3 {
+		return false
+	}
+	switch x := v.(type) {
+	case *ssa.UnOp:
+		al, ok := x.X.(*ssa.Alloc)
+		if !ok || x.Op != token.MUL {
+			return false
+		}
+		for _, r := range *al.Referrers() {
+			fa, ok := r.(*ssa.FieldAddr)
 			if !ok {
-				return true
+				continue
 			}
-			t := p.TypesInfo.TypeOf(cl)
-			if t == nil || !strings.HasSuffix(t.String(), "cbor/v2.DecOptions") {
-				return true
-			}
-			n++
-			vals := map[string]int64{}
-			for _, el := range cl.Elts {
-				kv, ok := el.(*ast.KeyValueExpr)
-				if !ok {
+			for _, rr := range *fa.Referrers() {
+				st, ok := rr.(*ssa.Store)
+				if !ok || st.Addr != fa {
 					continue
 				}
-				if id, ok := kv.Key.(*ast.Ident); ok {
-					if v, ok := constInt(p.TypesInfo, kv.Value); ok {
-						vals[id.Name] = v
+				val := st.Val
+				if cv, ok := val.(*ssa.Convert); ok {
+					val = cv.X
+				}
+				if pa, ok := val.(*ssa.Parameter); ok && args != nil {
+					for i, q := range pa.Parent().Params {
+						if q == pa && i < len(args) {
+							val = args[i]
+						}
 					}
 				}
+				if k, ok := val.(*ssa.Const); ok && k.Value != nil && k.Value.Kind() == constant.Int {
+					out[fieldName(fa.X.Type(), fa.Field)] = k.Int64()
+				}
 			}
-			key := fmt.Sprintf("cbor:DecOptions#%d", n)
-			c.Check(vals["MaxNestedLevels"] > 0 && vals["MaxNestedLevels"] <= 256, "decoder-limits", key+":MaxNestedLevels", cl.Pos(), fmt.Sprintf("MaxNestedLevels=%d", vals["MaxNestedLevels"]), fmt.Sprintf("MaxNestedLevels is %d: nesting is not bounded to ≤256", vals["MaxNestedLevels"]))
-			c.Check(vals["MaxArrayElements"] > 0 && vals["MaxArrayElements"] <= 10_000_000, "decoder-limits", key+":MaxArrayElements", cl.Pos(), fmt.Sprintf("MaxArrayElements=%d", vals["MaxArrayElements"]), fmt.Sprintf("MaxArrayElements is %d (unset or above the audited 10M)", vals["MaxArrayElements"]))
-			c.Check(vals["MaxMapPairs"] > 0 && vals["MaxMapPairs"] <= 10_000_000, "decoder-limits", key+":MaxMapPairs", cl.Pos(), fmt.Sprintf("MaxMapPairs=%d", vals["MaxMapPairs"]), fmt.Sprintf("MaxMapPairs is %d (unset or above the audited 10M)", vals["MaxMapPairs"]))
-			return true
-		})
+		}
+		return true
+	case *ssa.Call:
+		h := x.Call.StaticCallee()
+		if h == nil || len(h.Blocks) == 0 || h.Pkg == nil || x.Parent() == nil || h.Pkg != x.Parent().Pkg {
+			return false
+		}
+		ok := false
+		for _, b := range h.Blocks {
+			if r, isR := b.Instrs[len(b.Instrs)-1].(*ssa.Return); isR && len(r.Results) == 1 {
+				ok = structFieldInts(returnedValue(r, 0), x.Call.Args, depth+1, out) || ok
+			}
+		}
+		return ok
+	}
+	return false
+}
+
+func (c *Ctx) checkDecOptions() {
+	// every place where decoder options become a decoder mode: the limits in force there
+	c.W.buildSSA()
+	for _, fn := range c.pkgFuncs("cbor") {
+		for _, ci := range allCalls(fn) {
+			cn := calleeName(ci.Common())
+			if !strings.HasPrefix(cn, "github.com/fxamacker/cbor/v2.DecOptions.DecMode") && !strings.HasPrefix(cn, "github.com/fxamacker/cbor/v2.(DecOptions).DecMode") {
+				continue
+			}
+			vals := map[string]int64{}
+			key := stableClosureNames(ssaFuncKey(fn)) + ":DecOptions"
+			if !structFieldInts(ci.Common().Args[0], nil, 0, vals) {
+				c.Undecided("%s: decoder options passed to %s are not built by a composite literal here or in a constructor helper", ssaFuncKey(fn), cn)
+			}
+			c.Check(vals["MaxNestedLevels"] > 0 && vals["MaxNestedLevels"] <= 256, "decoder-limits", key+":MaxNestedLevels", ci.Pos(), fmt.Sprintf("MaxNestedLevels=%d", vals["MaxNestedLevels"]), fmt.Sprintf("MaxNestedLevels is %d: nesting is not bounded to ≤256", vals["MaxNestedLevels"]))
+			c.Check(vals["MaxArrayElements"] > 0 && vals["MaxArrayElements"] <= 10_000_000, "decoder-limits", key+":MaxArrayElements", ci.Pos(), fmt.Sprintf("MaxArrayElements=%d", vals["MaxArrayElements"]), fmt.Sprintf("MaxArrayElements is %d (unset or above the audited 10M)", vals["MaxArrayElements"]))
+			c.Check(vals["MaxMapPairs"] > 0 && vals["MaxMapPairs"] <= 10_000_000, "decoder-limits", key+":MaxMapPairs", ci.Pos(), fmt.Sprintf("MaxMapPairs=%d", vals["MaxMapPairs"]), fmt.Sprintf("MaxMapPairs is %d (unset or above the audited 10M)", vals["MaxMapPairs"]))
+		}
 	}
 	c.Floor("decoder-limits", 9)
 	// every decoder construction uses a mode (no _cbor.NewDecoder / _cbor.Unmarshal with default options on input bytes)
